@@ -71,10 +71,10 @@ def build_traces(path, tier, seed):
         recs.append(rec)
         meta[tid] = m
 
-    ncall = 40 if tier == "quick" else 400
-    nmax = 400 if tier == "quick" else 5000
+    ncall = 40 if tier == "quick" else 150        # (thorough: ~130 k validated samples; the trace file stays below 60 MB)
+    nmax = 400 if tier == "quick" else 3000
     for i in range(ncall):
-        n = gen.length(rng, 2, nmax)
+        n = gen.length(rng, 2, nmax) if not (tier == "thorough" and i in (5, 77)) else 5000
         a, shape = gen.record(rng, n)
         if i % 7 == 3:       # delayed pulse after exact leading zeros
             a = np.zeros(n)
